@@ -1,6 +1,7 @@
 """C13 - command lists are framed as one batch and typed replies pair positionally.
 
-Real code executed (MIR): mpd_protocol CommandList::{new, add, command, extend, len, render}; mpd_client
+Real code executed (MIR): mpd_protocol CommandList::{new, add, command, extend, len, render}, Connection::{send, send_list},
+AsyncConnection::{send, send_list} (coroutines) over a transport with short writes; mpd_client
 `impl CommandList for Vec<C>` and the eight tuple impls (command_list, responses) with a harness command type.
 """
 import time
@@ -55,6 +56,10 @@ def instances(tier, seed):
     for n in range(1, nmax + 1):
         for how in ('add', 'command', 'extend', 'mixed'):
             out.append({'kind': 'raw', 'n': n, 'how': how})
+    for flav in ('sync', 'async'):
+        for n in ((1, 2, 3) if tier == 'quick' else (1, 2, 3, 4)):
+            out.append({'kind': 'send', 'n': n, 'flav': flav})
+        out.append({'kind': 'send', 'n': 1, 'flav': flav, 'single': True})
     for n in range(1, 9):
         out.append({'kind': 'tuple', 'n': n})
     for n in range(0, 5 if tier == 'quick' else 8):
@@ -64,7 +69,8 @@ def instances(tier, seed):
 def bounds(tier):
     return {'quick': 'raw lists of 1..4 commands built through add / command / extend / a mix, command bytes symbolic (2..3 bytes, no LF); '
                      'typed tuples of every arity 1..8 and vectors of 0..4 commands, each response symbolically succeeding or failing',
-            'thorough': 'raw lists of 1..6 commands (same builders); tuples of arity 1..8; vectors of 0..7 commands'}[tier]
+            'thorough': 'raw lists of 1..6 commands (same builders); tuples of arity 1..8; vectors of 0..7 commands'}[tier] + (
+            '; lists of 1..%d commands sent through Connection::send_list / AsyncConnection::send_list (and send) over a transport that accepts all / 1 / 5 bytes per write call' % (3 if tier == 'quick' else 4))
 
 def run_instance(payload):
     P = engine.load_program()
@@ -72,6 +78,8 @@ def run_instance(payload):
     t0 = time.time()
     if payload['kind'] == 'raw':
         run_raw(P, res, payload)
+    elif payload['kind'] == 'send':
+        run_send(P, res, payload)
     else:
         run_typed(P, res, payload)
     res.wall_s = time.time() - t0
@@ -135,6 +143,65 @@ def run_raw(P, res, payload):
             res.samples.append({'builder': how, 'commands': [model_bytes(m, d).decode('latin1') for d in datas], 'wire': model_bytes(m, wire).decode('latin1')})
         res.take_stats(ctx.stats); ctx.stats.__init__()
 
+MAXW = [None, 1, 5]
+def run_send(P, res, payload):
+    """the list as it reaches the transport: Connection::send_list / AsyncConnection::send_list (send for a single Command) over a
+    transport that accepts at most a symbolically chosen number of bytes per write call (short writes are legal)"""
+    from models_io import Transport, drive
+    from props.conn_common import T
+    n = payload['n']; flav = payload['flav']; single = payload.get('single', False)
+    conn_ty = 'Connection' if flav == 'sync' else 'AsyncConnection'
+    def harness(I):
+        datas = []
+        for k in range(n):
+            bs = [z3.BitVec('c%d_%d' % (k, i), 8) for i in range(2 + (k % 2))]
+            for b in bs:
+                I.ctx.assume(b != 10)
+            datas.append(bs)
+        cmds = [raw_command(d) for d in datas]
+        t = Transport(list(b'OK MPD 0.23.5\n'), eof=False)
+        r = I.call_repo('mpd_protocol::connection::%s::<%s>::connect' % (conn_ty, T), [t])
+        if flav == 'async':
+            r = drive(I, r)
+        if r.variant != 'Ok':
+            raise InternalError('connect failed in the harness prefix')
+        conn = ValLoc(r.fields[0])
+        mw = MAXW[I.ctx.choose(len(MAXW), 'max_write')]
+        t.max_write = mw
+        if flav == 'async' and mw is not None:
+            t.write_budget = None
+        if single:
+            x = I.call_repo('mpd_protocol::connection::%s::<%s>::send' % (conn_ty, T), [Ref(conn), cmds[0]])
+        else:
+            lst = I.call_repo('mpd_protocol::CommandList::new', [cmds[0]])
+            cell = ValLoc(lst)
+            for c in cmds[1:]:
+                I.call_repo('mpd_protocol::CommandList::add', [Ref(cell), c])
+            x = I.call_repo('mpd_protocol::connection::%s::<%s>::send_list' % (conn_ty, T), [Ref(conn), cell.get()])
+        if flav == 'async':
+            x = drive(I, x)
+        return [list(d) for d in datas], x, list(t.out), mw
+    for pr in explore(P, harness):
+        res.paths += 1
+        ctx = pr.ctx
+        rec = {'kind': 'send', 'n': n, 'flav': flav, 'single': single, 'max_write': None, 'cmds': None}
+        if pr.kind == 'panic':
+            res.violations.append({'what': 'sending panics: ' + pr.error.msg, 'input': rec})
+            continue
+        datas, x, out, mw = pr.value
+        rec['max_write'] = mw
+        c = b_and(seq_eq(out, expected_wire(datas)), x.variant == 'Ok')
+        if not ctx.must(c):
+            m = ctx.model(z3.Not(c)) if is_sym(c) else ctx.model()
+            rec['cmds'] = [hexs(model_bytes(m, d)) for d in datas]
+            res.violations.append({'what': '%s %s of %d command(s) over a transport taking %s bytes per write: the transport received %r' % (
+                flav, 'send' if single else 'send_list', n, mw or 'all', model_bytes(m, out)), 'input': rec})
+        res.cls('sent n=%d' % min(n, 2), nontrivial=True)
+        if len(res.samples) < 1:
+            m = ctx.model()
+            res.samples.append({'sent': flav, 'max_write': mw, 'wire': model_bytes(m, out).decode('latin1')})
+        res.take_stats(ctx.stats); ctx.stats.__init__()
+
 def run_typed(P, res, payload):
     n = payload['n']; kind = payload['kind']
     def harness(I):
@@ -189,6 +256,20 @@ def run_typed(P, res, payload):
 # ---------------------------------------------------------------------------- native replay
 def replay(rec):
     inp = rec.get('input') or rec
+    if inp['kind'] == 'send':
+        n = inp['n']
+        names = [b'c' + bytes([97 + k]) for k in range(n)]
+        args = ['sendlist', inp['flav'], str(inp.get('max_write') or 0), str(n)]
+        for nm in names:
+            args += [hexs(nm), '0']
+        if inp.get('single'):
+            args.append('single')
+        out = run_replay(args)
+        if 'panic' in out:
+            return True, 'native run panics'
+        wire = unhex(out['wire'][0])
+        want = bytes(expected_wire([list(nm) for nm in names]))
+        return (wire != want or out.get('send') != ['ok']), 'native: transport received %r, send=%s' % (wire, out.get('send'))
     if inp['kind'] == 'raw':
         if inp.get('cmds') is None:
             return False, 'no concrete input'
@@ -216,7 +297,7 @@ def replay(rec):
     return (wire != want or not okp), 'native wire %r pairs %s' % (wire, pairs)
 
 DESCR = {}
-REQUIRED_CLASSES = ['raw n=1', 'raw n=2', 'raw n>=3', 'tuple all ok', 'vec all ok', 'vec error propagated']
+REQUIRED_CLASSES = ['sent n=1', 'sent n=2', 'raw n=1', 'raw n=2', 'raw n>=3', 'tuple all ok', 'vec all ok', 'vec error propagated']
 EXPLANATION = ('Bounded symbolic execution of the real MIR of list building/rendering (command bytes symbolic; the rendered stream is compared '
                'with the specified framing by z3) and of the typed list impls for Vec<C> and all eight tuple arities with a harness command type '
                'whose response conversions succeed or fail symbolically (pairing command k <-> frame k asserted on every path); '
